@@ -1947,6 +1947,66 @@ func c17r26(c *Ctx, r *Report) {
 	r.floor("reads of the original spec at the length of its leading name", n, 1)
 }
 
+// c17r27: `--tmux [POS][,SIZE][,SIZE][,border-native]` — once the position has been made explicit and
+// border-native has been cut out, at most three tokens can remain, and every one of them is parsed. A value with
+// more tokens has to be rejected; the parser must not return a configuration on a path on which it knows nothing
+// about the number of tokens (D83: with four tokens neither size branch ran, `tokens[3]` was never looked at,
+// and `--tmux center,10,20,garbage` was accepted with both sizes silently dropped).
+func c17r27(c *Ctx, r *Report) {
+	l := c.L
+	r.rule("C17-R27", "A (every returned configuration is under a bound on the number of tokens)", "P1",
+		"in parseTmuxOptions, every return of a non-nil option set is reached only under a test that bounds the length of the token list by 3 (== 2, == 3, <= 3, or not > 3)",
+		"surplus text in --tmux is accepted and the sizes that were given are dropped without a message")
+	fn := l.Fn("fzf", "parseTmuxOptions")
+	if fn == nil {
+		r.unest("anchors", token.NoPos, nil, "anchor parseTmuxOptions", "cannot resolve")
+		return
+	}
+	pc := pathConds(fn)
+	bounded := func(atom ssa.Value, val bool) bool {
+		x, op, k, ok := cmpInt(atom)
+		if !ok {
+			return false
+		}
+		call, isCall := x.(*ssa.Call)
+		if !isCall || calleeName(call.Common()) != "builtin.len" {
+			return false
+		}
+		if _, isSl := call.Call.Args[0].Type().Underlying().(*types.Slice); !isSl {
+			return false
+		}
+		switch op {
+		case token.EQL:
+			return val && k <= 3
+		case token.GTR:
+			return !val && k <= 3
+		case token.GEQ:
+			return !val && k <= 4
+		case token.LEQ:
+			return val && k <= 3
+		case token.LSS:
+			return val && k <= 4
+		}
+		return false
+	}
+	n := 0
+	eachInstr(fn, func(in ssa.Instruction) {
+		ret, ok := in.(*ssa.Return)
+		if !ok || len(ret.Results) != 2 {
+			return
+		}
+		if cst, isK := retResult(ret, 0).(*ssa.Const); isK && cst.IsNil() {
+			return
+		}
+		n++
+		// the bound has to be known about the FINAL token list: a literal that survives to the return block
+		holds, reach := pc.Implies(ret.Block(), func(lits []Lit) bool { return hasLit(lits, bounded) })
+		r.check(holds && reach, fmt.Sprintf("%s:configuration return #%d knows how many tokens there were", relName(fn), n), ret.Pos(), fn,
+			"reached only with at most three tokens", "a configuration is returned on a path that never bounded the number of tokens: a fourth token is accepted unread")
+	})
+	r.floor("configuration returns of parseTmuxOptions", n, 1)
+}
+
 // round9 runs the round-9 rules of a property (own and shared).
 func round9(c *Ctx, r *Report, prop string) {
 	switch prop {
@@ -2002,6 +2062,7 @@ func round9(c *Ctx, r *Report, prop string) {
 		c12r14(c, r) // the API key reaches the listener inside the popup unchanged
 		c16r20(c, r)
 	case "C17":
+		c17r27(c, r)
 		c17r26(c, r)
 		c17r24(c, r)
 		c17r25(c, r)
